@@ -293,17 +293,26 @@ func plan(c *hxlib.Ctx) []netCfg {
 		add(n, byz, heights, "directed:"+d, 0, 0, 60)
 	}
 	styles := []string{"fair", "lossy", "partition", "slow"}
-	heights := 2
-	if thorough {
-		heights = 4
-	}
-	for i := 0; i < c.N(8); i++ {
+	for i := 0; i < c.N(14); i++ {
 		st := styles[i%len(styles)]
 		crash, window := 12, 50
 		if i%4 == 3 {
 			crash, window = 0, 0
 		}
-		add(4, []int{c.Rand.Intn(4)}, heights, st, crash, window, 20+float64(heights)*6)
+		heights := 2
+		if i%5 == 4 || thorough {
+			heights = 3
+		}
+		byz := []int{c.Rand.Intn(4)}
+		var silent []int
+		name := ""
+		if i%7 == 6 {
+			// two real engines, one Byzantine validator, one correct validator that is down for ever
+			silent = []int{(byz[0] + 1 + c.Rand.Intn(3)) % 4}
+			name = "-2real"
+		}
+		l = append(l, netCfg{Name: fmt.Sprintf("%s-n4%s", st, name), N: 4, Byz: byz, Silent: silent, Heights: heights, Seed: c.Rand.Int63(), Style: st,
+			MaxWall: 20 + float64(heights)*6, CrashPM: crash, WindowPM: window})
 	}
 	if thorough {
 		for i := 0; i < c.N(2); i++ {
@@ -367,6 +376,9 @@ func emitNet(c *hxlib.Ctx, idx int, res *netResult, forCanary **netw) {
 	}
 	// (1) the net as a whole: the direct oracle
 	kind := fmt.Sprintf("net-%s-n%d", strings.SplitN(cfg.Style, ":", 2)[0], cfg.N)
+	if len(cfg.Silent) > 0 {
+		kind += "-2real"
+	}
 	if strings.HasPrefix(cfg.Style, "directed:") {
 		kind = "net-" + cfg.Style
 	}
